@@ -49,6 +49,13 @@ def gen():
     need(r"swap\(&mut self\.modified,\s*&mut self\.modified_2\);\s*std::mem::swap\(&mut self\.m2o,\s*&mut self\.m2o_2\)", cm, "commit swap")
     need(r"edit::resolve_edits\(\s*&self\.modified,\s*&self\.m2o,\s*&mut self\.modified_2,\s*&mut self\.m2o_2,\s*&mut self\.replaces,?\s*\)", cm,
          "commit: argument order of resolve_edits")
+    # the size the guard compares is the value resolve_edits RETURNS (after an early return the target holds a prefix only)
+    src_of_sz = "other"
+    if re.search(r"let\s+sz\s*=\s*edit::resolve_edits\(", cm):
+        src_of_sz = "returned_by_resolve_edits"
+    elif re.search(r"let\s+sz\s*=\s*self\.modified_2\.len\(\)\s*;", cm):
+        src_of_sz = "length_of_target"
+    out.append('(* commit: where the size compared with the limit comes from *)\nDefinition commit_size_source : string := "%s".\n' % src_of_sz)
 
     # ---- resolve_edits
     re_ = F.fn_body(edit, "resolve_edits", EDIT)
@@ -61,9 +68,20 @@ def gen():
     need(r"target\.push_str\(&source\[start\.\.\]\);\s*target_mapping\.extend\(source_mapping\[start\.\.\]\.iter\(\)\);", re_, "resolve_edits tail copy")
     m = need(r"if\s+let\s+Some\(v\)\s*=\s*target_mapping\.first_mut\(\)\s*\{\s*\*v\s*=\s*(\d+);\s*\}", re_, "resolve_edits forces the first entry")
     out.append("Definition first_forced : nat := %d.\n" % int(m.group(1)))
-    n_add = len(re.findall(r"add_replace\(\s*source_mapping,\s*target,\s*target_mapping,\s*edit\.what,", re_))
-    if n_add != 3:
-        raise F.FactError("resolve_edits: expected 3 calls add_replace(source_mapping, target, target_mapping, edit.what, ..), found %d" % n_add)
+    # the three kinds of replacement text: what each arm adds to cur_len.  "bytes" = add_replace(.., <a &str of the text>) whose
+    # result is with.len() - what.len() (recognised below); anything else is reported as written
+    arms = []
+    for kind in ["Str", "Ref", "Char"]:
+        m = re.search(r"ReplaceTgt::%s\((\w+)\)\s*=>\s*\{?\s*(\w+)\(\s*source_mapping,\s*target,\s*target_mapping,\s*edit\.what,\s*(.*?),?\s*\)\s*\}?\s*,?\s*(?=ReplaceTgt::|\};)" % kind, re_, flags=re.S)
+        if not m:
+            raise F.FactError("resolve_edits: arm ReplaceTgt::%s not recognised" % kind)
+        v, fn, arg = m.group(1), m.group(2), squeeze(m.group(3))
+        as_str = {"Str": "&" + v, "Ref": v, "Char": v + ".encode_utf8(&mut [0; 4])"}[kind]
+        unit = "bytes" if (fn == "add_replace" and arg == as_str) else "%s(%s)" % (fn, arg)
+        arms.append((kind, unit))
+    need(r"cur_len\s*\+=\s*match\s+edit\.with\s*\{", re_, "resolve_edits: cur_len += match edit.with")
+    out.append("(* resolve_edits: unit in which every kind of replacement text is added to the running size *)\n")
+    out.append("Definition resolve_arm_units : list (string * string) := [%s].\n" % "; ".join('("%s", "%s")' % a for a in arms))
 
     # ---- add_replace
     ar = F.fn_body(edit, "add_replace", EDIT)
@@ -71,6 +89,8 @@ def gen():
     m = need(r"target\.push_str\(with\);\s*target_mapping\.push\(source_mapping\[what\.(start|end)\]\);\s*let\s+pos\s*=\s*source_mapping\[what\.(start|end)\];"
              r"\s*for\s+_\s+in\s+(\d+)\.\.with\.len\(\)\s*\{\s*target_mapping\.push\(pos\);\s*\}\s*with\.len\(\)\s+as\s+isize\s*-\s*what\.len\(\)\s+as\s+isize",
              ar, "add_replace body")
+    need(r"fn\s+add_replace\s*\([^)]*\bwhat\s*:\s*Range<usize>\s*,\s*with\s*:\s*&str\s*,?\s*\)\s*->\s*isize", edit, "add_replace signature (what: Range<usize>, with: &str) -> isize")
+    out.append('(* add_replace returns with.len() - what.len() of a &str and a byte range: a difference of BYTE lengths *)\nDefinition repl_delta_unit : string := "bytes".\n')
     out.append('Definition repl_first_sel : string := "%s".\n' % m.group(1))
     out.append('Definition repl_rest_sel : string := "%s".\n' % m.group(2))
     out.append("Definition repl_rest_from : nat := %d.\n" % int(m.group(3)))
